@@ -26,7 +26,7 @@ from vlib.shrink import shrink_seq
 
 ID = "C06"
 LEVEL = "exploration"
-BUDGET = {"quick": 80, "thorough": 1100}
+BUDGET = {"quick": 200, "thorough": 1200}
 REPO = os.environ.get("VERIF_REPO", "/repo")
 
 ALPHABET = ["a", "1", " ", "=", ";", "(", ")", "{", "}", "<", ">", ",", "'", '"',
